@@ -49,7 +49,7 @@ impl IoDriver for MockDriver {
     }
 }
 
-// @unit id=io.safe_state.drivers props=C08 tier=quick kind=bounded bound="2 drivers (symbolic health), one BYTE safe-state entry at %QB0 (value full domain), 2-byte image" timeout=1200 fn=IoSubsystem::apply_safe_state,IoSafeState::apply
+// @unit id=io.safe_state.drivers props=C08 tier=thorough kind=bounded bound="2 drivers (symbolic health), one BYTE safe-state entry at %QB0 (value full domain), 2-byte image" timeout=3000 fn=IoSubsystem::apply_safe_state,IoSafeState::apply
 #[kani::proof]
 #[kani::stub(std::hash::RandomState::new, fixed_rs)]
 #[kani::unwind(8)]
@@ -69,6 +69,28 @@ fn io_safe_state_drivers() {
     assert!(ok, "applying the safe state succeeds when every driver accepts the image");
     assert!(CALLS_A.load(Ordering::SeqCst) == 1 && CALLS_B.load(Ordering::SeqCst) == 1, "every driver receives the image exactly once, whatever its health");
     assert!(SEEN_A.load(Ordering::SeqCst) == v as usize && SEEN_B.load(Ordering::SeqCst) == v as usize, "the delivered image holds the safe value");
+    kani::cover!(fa && !fb);
+    kani::cover!(!fa && fb);
+    std::mem::forget(io);
+}
+
+// the driver loop alone (empty safe state): every driver is handed the image once, whatever its health
+// @unit id=io.safe_state.driver_loop props=C08 tier=quick kind=bounded bound="2 drivers (symbolic health), empty safe state, 1-byte image" timeout=1500 fn=IoSubsystem::apply_safe_state
+#[kani::proof]
+#[kani::stub(std::hash::RandomState::new, fixed_rs)]
+#[kani::unwind(8)]
+fn io_safe_state_driver_loop() {
+    let mut io = IoSubsystem::new();
+    io.resize(0, 1, 0);
+    let fa: bool = kani::any();
+    let fb: bool = kani::any();
+    io.add_driver("a", Box::new(MockDriver { which: 0, faulted: fa }));
+    io.add_driver("b", Box::new(MockDriver { which: 1, faulted: fb }));
+    let r = io.apply_safe_state();
+    let ok = matches!(&r, Ok(()));
+    std::mem::forget(r);
+    assert!(ok);
+    assert!(CALLS_A.load(Ordering::SeqCst) == 1 && CALLS_B.load(Ordering::SeqCst) == 1, "every driver receives the image exactly once, whatever its health");
     kani::cover!(fa && !fb);
     kani::cover!(!fa && fb);
     std::mem::forget(io);
